@@ -140,3 +140,11 @@ package upstream
 //@   ensures calls(dialNetConn) == 1
 //@   ensures ret(dialNetConn, 0, 1) != nil ==> result_1 != nil && calls(NewDnsConn) == 0
 //@   ensures ret(dialNetConn, 0, 1) == nil ==> result_1 == nil && calls(NewDnsConn) == 1 && arg(NewDnsConn, 0, 0).MaxConcurrentQuery == 64 && arg(NewDnsConn, 0, 0).WithLengthHeader && arg(NewDnsConn, 0, 1) == ret(dialNetConn, 0, 0)
+
+// NewUpstream as its callers see it (its body is too large to be under contract as a whole; its
+// closures and helpers are — see above): an upstream or an error, never both, never neither.
+//@ func NewUpstream
+//@   nobody
+//@   log NewUpstream
+//@   modifies *
+//@   ensures (result_0 != nil) != (result_1 != nil)
